@@ -172,14 +172,37 @@ func c11(p *core.Program, r *core.Report) {
 				if core.FnPkgPath(g) == mod+"/xy/internal/robustdeterminate" && g.Name() != "init" {
 					inexact = append(inexact, short(f)+" -> "+g.Name()+" at "+p.Pos(c.Pos()))
 				}
-				if g.Name() == "OrientationIndex" && (core.FnPkgPath(g) == mod+"/bigxy" || core.FnPkgPath(g) == mod+"/xy") && f == cs {
+				// the vertices as f sees them: countSegment's own parameters, or the parameters of a function of the
+				// package that countSegment hands them to (the straddling case split off into a method)
+				v1, v2 := ssa.Value(nil), ssa.Value(nil)
+				if f == cs {
+					v1, v2 = cs.Params[1], cs.Params[2]
+				} else {
+					for _, cc := range eng.Calls(cs) {
+						if cc.Common().StaticCallee() != f {
+							continue
+						}
+						for i, a := range cc.Common().Args {
+							if i >= len(f.Params) {
+								continue
+							}
+							if a == ssa.Value(cs.Params[1]) {
+								v1 = f.Params[i]
+							}
+							if a == ssa.Value(cs.Params[2]) {
+								v2 = f.Params[i]
+							}
+						}
+					}
+				}
+				if g.Name() == "OrientationIndex" && (core.FnPkgPath(g) == mod+"/bigxy" || core.FnPkgPath(g) == mod+"/xy") && v1 != nil && v2 != nil {
 					// operands: the counter's point and the two vertex parameters, each once
 					seen := map[string]bool{}
 					for _, a := range c.Common().Args {
 						switch {
-						case a == ssa.Value(cs.Params[1]):
+						case a == v1:
 							seen["p1"] = true
-						case a == ssa.Value(cs.Params[2]):
+						case a == v2:
 							seen["p2"] = true
 						default:
 							if _, path, ok := fieldLoad(a); ok && path == ".p" {
